@@ -1321,6 +1321,10 @@ class TexArgs(list):
         BracketGroup('arg3')
         """
         arg = self.__coerce(arg)
+        # clamp the index the way list.insert does
+        if i < 0:
+            i = max(len(self) + i, 0)
+        i = min(i, len(self))
 
         if isinstance(arg, (TexGroup, TexCmd)):
             super().insert(i, arg)
